@@ -509,7 +509,7 @@ func aggregate(cfg *propCfg, tier string, seed uint64, b *build, outs []shardOut
 	newViol := 0
 	replayDir := filepath.Join(verifDir, "work", "replays")
 	os.MkdirAll(replayDir, 0o755)
-	var knownLines, violLines []string
+	knownLines, violLines := []string{}, []string{}
 	knownIdx := map[string]int{}
 	for n, k := range keys {
 		v := byKey[k]
